@@ -265,6 +265,8 @@ def _run(mod, prop, args, run_dir, env, t0):
             json.dumps(ev, indent=1, default=str) + '\n')
         _validate(ev)
 
+    slow = sorted(ordered, key=lambda r: -r.get('wall_s', 0))[:3]
+    print('  slowest cases:', ', '.join('%s=%.1fs' % (r['id'], r.get('wall_s', 0)) for r in slow))
     print('%s tier=%s seed=%d cases=%d/%d nontrivial=%d deciding_events=%d lost=%d wall=%.1fs'
           % (prop, args.tier, args.seed, n_eval, len(specs), len(nontrivial), deciding,
              len(lost_final), wall))
